@@ -49,6 +49,38 @@ struct Mock {
     has_large_blobs: bool,
 }
 
+/// A handler's answer that is RELATED to the request it answers (as real answers are): well-formed
+/// authenticator data whose rpIdHash repeats the request's clientDataHash and whose credential id
+/// is one of the ids on the request's exclude list (or a fresh one). A dispatcher must pass it on
+/// whatever the relation.
+fn mc_value_for(id: u8, salt: u32, req: &ctap2::make_credential::Request) -> ctap2::make_credential::Response {
+    let mut r = mc_value(id, salt);
+    if salt & 8 == 0 {
+        let mut ad: Vec<u8> = req.client_data_hash.iter().copied().chain(core::iter::repeat(0x11)).take(32).collect();
+        ad.push(0x41 | if salt & 16 == 0 { 0x80 } else { 0 });
+        ad.extend_from_slice(&salt.to_be_bytes());
+        ad.extend_from_slice(&[0xA7; 16]);
+        let cred: Vec<u8> = match req.exclude_list.as_ref().and_then(|l| l.get((salt as usize >> 5) % l.len().max(1))) {
+            Some(d) if salt & 32 == 0 && d.id.len() <= 200 => d.id.to_vec(),
+            _ => vec![id, 0xC0, salt as u8],
+        };
+        ad.extend_from_slice(&(cred.len() as u16).to_be_bytes());
+        ad.extend_from_slice(&cred);
+        // a P-256 COSE key
+        ad.extend_from_slice(&[0xA5, 0x01, 0x02, 0x03, 0x26, 0x20, 0x01, 0x21, 0x58, 0x20]);
+        ad.extend_from_slice(&[0x44; 32]);
+        ad.extend_from_slice(&[0x22, 0x58, 0x20]);
+        ad.extend_from_slice(&[0x55; 32]);
+        if salt & 16 == 0 {
+            ad.extend_from_slice(&[0xA1, 0x6B, b'h', b'm', b'a', b'c', b'-', b's', b'e', b'c', b'r', b'e', b't', 0xF5]);
+        }
+        if let Ok(b) = ctap_types::Bytes::from_slice(&ad) {
+            r.auth_data = b;
+        }
+    }
+    r
+}
+
 fn mc_value(id: u8, salt: u32) -> ctap2::make_credential::Response {
     let mut r = ctap2::make_credential::ResponseBuilder {
         fmt: if salt & 1 == 0 { ctap2::AttestationStatementFormat::Packed } else { ctap2::AttestationStatementFormat::None },
@@ -146,7 +178,7 @@ macro_rules! impl_ctap2 {
                 gi_value(0, self.0.salt)
             }
             fn make_credential(&mut self, r: &ctap2::make_credential::Request) -> ctap2::Result<ctap2::make_credential::Response> {
-                { let s = self.0.salt; self.0.outcome2(1, format!("{:?}", r), mc_value(1, s)) }
+                { let s = self.0.salt; self.0.outcome2(1, format!("{:?}", r), mc_value_for(1, s, r)) }
             }
             fn get_assertion(&mut self, r: &ctap2::get_assertion::Request) -> ctap2::Result<ctap2::get_assertion::Response> {
                 { let s = self.0.salt; self.0.outcome2(2, format!("{:?}", r), ga_value(2, s)) }
@@ -250,7 +282,38 @@ impl ctap1::Authenticator for WithLb {
 
 fn reg_value(salt: u32) -> ctap1::register::Response {
     let key = cosey::EcdhEsHkdf256PublicKey { x: ctap_types::Bytes::from_slice(&[1; 32]).unwrap(), y: ctap_types::Bytes::from_slice(&[2; 32]).unwrap() };
-    ctap1::register::Response::new(salt as u8, &key, ctap_types::Bytes::from_slice(&[3; 9]).unwrap(), ctap_types::Bytes::from_slice(&[4; 70]).unwrap(), ctap_types::Bytes::from_slice(&[5; 100]).unwrap())
+    // certificates as they come out of storage: opaque bytes, or a DER SEQUENCE whose declared
+    // length is exact, shorter than the buffer (padding behind the certificate) or longer
+    let total = [100usize, 140, 300, 9][(salt % 4) as usize];
+    let mut cert = vec![5u8; total];
+    match (salt / 4) % 4 {
+        0 => {}
+        k => {
+            let declared = match k {
+                1 => total,
+                2 => total.saturating_sub(7),
+                _ => total + 5,
+            };
+            cert[0] = 0x30;
+            if total >= 4 && declared >= 4 + 128 {
+                if declared - 4 > 255 {
+                    cert[1] = 0x82;
+                    cert[2] = ((declared - 4) >> 8) as u8;
+                    cert[3] = (declared - 4) as u8;
+                } else {
+                    cert[1] = 0x81;
+                    cert[2] = (declared - 3) as u8;
+                }
+            } else if total >= 2 {
+                cert[1] = (declared.saturating_sub(2) as u8) & 0x7F;
+            }
+            if salt & 64 == 0 {
+                let n = cert.len();
+                cert[n - 1] = 0xFF;
+            }
+        }
+    }
+    ctap1::register::Response::new(salt as u8, &key, ctap_types::Bytes::from_slice(&[3; 9]).unwrap(), ctap_types::Bytes::from_slice(&[4; 70]).unwrap(), ctap_types::Bytes::from_slice(&cert).unwrap())
 }
 fn auth_value(salt: u32) -> ctap1::authenticate::Response {
     // the presence byte and counter vary (0x00, 0x01, 0x02, 0x80, 0xFE ...): the dispatcher must not interpret them
@@ -262,7 +325,7 @@ fn expect2(req: &ctap2::Request, salt: u32) -> (usize, String, ctap2::Response) 
     use ctap2::{Request as Q, Response as R};
     match req {
         Q::GetInfo => (0, String::new(), R::GetInfo(gi_value(0, salt))),
-        Q::MakeCredential(r) => (1, format!("{:?}", r), R::MakeCredential(mc_value(1, salt))),
+        Q::MakeCredential(r) => (1, format!("{:?}", r), R::MakeCredential(mc_value_for(1, salt, r))),
         Q::GetAssertion(r) => (2, format!("{:?}", r), R::GetAssertion(ga_value(2, salt))),
         Q::GetNextAssertion => (3, String::new(), R::GetNextAssertion(ga_value(3, salt))),
         Q::Reset => (4, String::new(), R::Reset),
